@@ -86,7 +86,7 @@ def slice_patterns(r, box, total):
     return pats
 
 
-def run_family(chk, kind, els, boxes, r, tier, tag):
+def run_family(chk, kind, els, boxes, r, tier, tag, subtype="float64"):
     n = len(els)
     # half of the families live in a window of a larger array (non-zero buffer offset, elements before and behind the window):
     # the index is then built from the bounds of a sliced array
@@ -95,10 +95,10 @@ def run_family(chk, kind, els, boxes, r, tier, tag):
         filler = [e for e in els if e is not None and geo.verts_of(kind, e)]
         front = [filler[(i * 7 + 1) % len(filler)] for i in range(pad)]
         back = [filler[(i * 5 + 2) % len(filler)] for i in range(r.choice((0, 1, 2)))]
-        arr0 = geo.make_array(kind, front + els + back, "float64")[pad:pad + n]
+        arr0 = geo.make_array(kind, front + els + back, subtype)[pad:pad + n]
     else:
         pad = 0
-        arr0 = geo.make_array(kind, els, "float64")
+        arr0 = geo.make_array(kind, els, subtype)
     tot = total_box(kind, els)
     for bi, box in enumerate(boxes):
         pats = slice_patterns(r, box, tot)
@@ -199,6 +199,18 @@ def run_cases(chk, tier):
                 els.append(els[0])                      # duplicate
             bxs = r.sample(boxes, 6)
             run_family(chk, kind, els, bxs, r, tier, "grid")
+        # single-precision storage with box ends that single precision cannot represent (even coordinates around 2^24, odd ends):
+        # with and without an index the ends are compared as given
+        if kind in ("point", "multipoint", "line", "polygon"):
+            B = 2 ** 24
+            def mv(x, odd=False):
+                if isinstance(x, list):
+                    return [mv(y, odd) for y in x]
+                return None if x is None else B + 2 * x + (1 if odd else 0)
+            for k in range(6 if tier == "quick" else 40):
+                els = [mv(r.choice(regular)) for _ in range(r.choice((2, 3, 5)))] + [None]
+                bxs = [tuple(B + 2 * c + 1 for c in b) for b in r.sample(boxes, 5)]
+                run_family(chk, kind, els, bxs, r, tier, "float32-precision", subtype="float32")
         for k in range(2 if tier == "quick" else 20):
             mag = r.choice((40, 1000))
             els = random_family(kind, r, 12, mag) + [None]
